@@ -12,6 +12,7 @@ property's own quantifier ("arbitrary finite doubles"; infinities are allowed).
 -/
 import Proofs.TracksV1RoundTrip
 import Proofs.TracksV1Spec
+import Proofs.TracksV1Repr
 import EngineModel.TracksV1.Accessors
 
 namespace EngineModel.Properties.C01V1
@@ -71,9 +72,70 @@ theorem v1_C01_fixed_point (s : Schema) (x y : Snap) (h : Spec.normalize s x = s
     rw [if_pos (Spec.accepted_normFields s x ha), Spec.normFields_idem s x ha]
   · rw [if_neg ha] at h; cases h
 
-/-- `normalize` cannot hide a corruption: on a snapshot whose every field is already in stored form
-(`Representable`: a decidable, field-by-field predicate) it is the identity. -/
-theorem v1_C01_representable (s : Schema) (x : Snap) (ha : Spec.accepted x = true)
+/-! ### "normalisation" cannot hide a corruption
+
+Which values the 1.x layout represents exactly, per field — explicit arithmetic predicates on the INPUT
+only — and the theorem that `normalize` returns exactly those values, field by field: one field outside
+its representable set says nothing about (and takes nothing away from) the others. -/
+
+/-- not one of the two zeros (they mean "absent") -/
+def ReprNonZero (v : Option Bits) : Prop := v ≠ some F64.zero ∧ v ≠ some F64.negZero
+/-- any double but −0.0 (SQLite's REAL cell holds it as +0.0) -/
+def ReprBpm (v : Option Bits) : Prop := v ≠ some F64.negZero
+/-- whole seconds (zero included: the 1.x layout keeps a zero duration) -/
+def ReprDuration (d : Option UInt64) : Prop := ∀ ms, d = some ms → Prim.s64 ms % 1000 = 0
+def ReprTime (t : Option UInt64) : Prop := ∀ ns, t = some ns → Prim.s64 ns % 1000000000 = 0
+/-- 0..100 -/
+def ReprRating (r : Option UInt32) : Prop := ∀ v, r = some v → 0 ≤ Prim.s32 v ∧ Prim.s32 v ≤ 100
+def ReprCount (v : Option UInt64) : Prop := v ≠ some 0
+/-- eight slots, none at the reserved "empty" offset −1.0 -/
+def ReprCues (l : List (Option Impl.V1.HotCue)) : Prop := l.length = 8 ∧ ∀ q, some q ∈ l → q.off ≠ F64.negOne
+def ReprLoops (l : List (Option Impl.V1.LoopV)) : Prop := l.length = 8 ∧ ∀ q, some q ∈ l → q.start ≠ F64.negOne
+/-- `file_bytes` has a column only from 1.15.0 on -/
+def ReprFileBytes (s : Schema) (v : Option UInt64) : Prop := s.ge .s1_15_0 = true ∨ v = none
+
+/-- **Every field the schema can represent comes back exactly as given**: the 14 fields stored verbatim
+(the high-resolution waveform and the beat grid among them) always, the other 11 whenever the given value
+is one the 1.x layout represents. -/
+theorem v1_C01_representable (s : Schema) (x y : Snap) (h : Spec.normalize s x = some y) :
+    y.album = x.album ∧ y.artist = x.artist ∧ y.beatgrid = x.beatgrid ∧ y.bitrate = x.bitrate ∧
+    y.comment = x.comment ∧ y.composer = x.composer ∧ y.genre = x.genre ∧ y.key = x.key ∧
+    y.publisher = x.publisher ∧ y.relativePath = x.relativePath ∧ y.title = x.title ∧
+    y.trackNumber = x.trackNumber ∧ y.waveform = x.waveform ∧ y.year = x.year ∧
+    (ReprNonZero x.averageLoudness → y.averageLoudness = x.averageLoudness) ∧
+    (ReprBpm x.bpm → y.bpm = x.bpm) ∧
+    (ReprDuration x.duration → y.duration = x.duration) ∧
+    (ReprFileBytes s x.fileBytes → y.fileBytes = x.fileBytes) ∧
+    (ReprCues x.hotCues → y.hotCues = x.hotCues) ∧
+    (ReprTime x.lastPlayedAt → y.lastPlayedAt = x.lastPlayedAt) ∧
+    (ReprLoops x.loops → y.loops = x.loops) ∧
+    (ReprNonZero x.mainCue → y.mainCue = x.mainCue) ∧
+    (ReprRating x.rating → y.rating = x.rating) ∧
+    (ReprCount x.sampleCount → y.sampleCount = x.sampleCount) ∧
+    (ReprNonZero x.sampleRate → y.sampleRate = x.sampleRate) := by
+  unfold Spec.normalize at h
+  split at h
+  · cases h
+    have nz : ∀ v, ReprNonZero v → Spec.dropZero v = v := Spec.dropZero_of_repr
+    refine ⟨rfl, rfl, rfl, rfl, rfl, rfl, rfl, rfl, rfl, rfl, rfl, rfl, rfl, rfl, nz _, ?_, ?_, ?_, ?_, ?_, ?_, nz _,
+      ?_, ?_, nz _⟩
+    · exact Spec.bpm_of_repr x.bpm
+    · exact Spec.duration_of_repr x.duration
+    · intro hf
+      simp only [Spec.normFields]
+      rcases hf with hf | hf
+      · rw [if_pos hf]
+      · rw [hf]; split <;> rfl
+    · exact Spec.cues_of_repr x.hotCues
+    · exact Spec.time_of_repr x.lastPlayedAt
+    · exact Spec.loops_of_repr x.loops
+    · exact Spec.rating_of_repr x.rating
+    · exact Spec.count_of_repr x.sampleCount
+  · cases h
+
+/-- The former all-or-nothing form follows: on a snapshot every field of which is representable,
+`normalize` is the identity. -/
+theorem v1_C01_representable_all (s : Schema) (x : Snap) (ha : Spec.accepted x = true)
     (hr : Spec.Representable s x = true) : Spec.normalize s x = some x := by
   unfold Spec.normalize
   rw [if_pos ha, Spec.normFields_of_representable s x hr]
@@ -106,7 +168,13 @@ theorem v1_C01_db_roundtrip (o : FOps) (d d' : Db) (id : Int) (x : Snap) (hn : S
     ∃ y, Spec.normalize d.schema x = some y ∧ dbSnap o d' id = .ok y := by
   unfold dbUpdate at h
   cases hp : d.rows id with
-  | none => rw [hp] at h; cases h
+  | none =>
+    rw [hp] at h
+    simp only at h
+    split at h
+    · cases h
+    · split at h <;> cases h
+    · cases h
   | some prior =>
     rw [hp] at h
     simp only at h
@@ -154,6 +222,28 @@ example : Spec.normalize .s1_18_0_os { exA with loops := List.replicate 9 none }
 example : Spec.normalize .s1_6_0 { exA with sampleRate := none } = none := by decide
 /-- a one-marker grid must be rejected -/
 example : Spec.normalize .s1_6_0 { exA with beatgrid := [⟨0, 0⟩] } = none := by decide
+/-- the `Repr…` premises are satisfiable by non-trivial values, and genuinely restrictive -/
+example : ReprCues (some ⟨[99], 0x40f5888000000000, ⟨255, 1, 2, 3⟩⟩ :: List.replicate 7 none) ∧
+    ReprDuration (some 61000) ∧ ReprDuration (some 0) ∧ ReprRating (some 0) ∧ ReprRating (some 100) ∧
+    ReprTime (some 1700000000000000000) ∧ ReprBpm (some 0x405e000000000000) ∧ ReprNonZero (some F64.negOne) ∧
+    ReprCount (some 1) ∧ ReprFileBytes .s1_15_0 (some 5) ∧ ReprFileBytes .s1_6_0 none := by
+  refine ⟨⟨rfl, ?_⟩, ?_, ?_, ?_, ?_, ?_, by unfold ReprBpm; decide, ⟨by decide, by decide⟩, by unfold ReprCount; decide,
+    Or.inl rfl, Or.inr rfl⟩
+  · intro q hq
+    simp only [List.mem_cons, Option.some.injEq, List.mem_replicate, reduceCtorEq, and_false, or_false] at hq
+    subst hq; decide
+  · intro ms h; cases h; decide
+  · intro ms h; cases h; decide
+  · intro v h; cases h; decide
+  · intro v h; cases h; decide
+  · intro ns h; cases h; decide
+example : ¬ ReprDuration (some 185500) := fun h => absurd (h 185500 rfl) (by decide)
+example : ¬ ReprRating (some 150) := fun h => absurd (h 150 rfl).2 (by decide)
+example : ¬ ReprFileBytes .s1_13_2 (some 5) := fun h => by rcases h with h | h <;> cases h
+/-- one unrepresentable field (rating 150) does not void the statement for the others: the duration of
+`exA` with whole seconds comes back exactly -/
+example : ((Spec.normalize .s1_6_0 { exA with duration := some 185000 }).map (·.duration)) = some (some 185000) ∧
+    ((Spec.normalize .s1_6_0 { exA with duration := some 185000 }).map (·.rating)) = some (some 100) := by decide
 /-- a representable snapshot -/
 example : Spec.Representable .s1_15_0
     { exA with duration := some 185000, rating := some 100, hotCues := List.replicate 8 none,
